@@ -457,6 +457,25 @@ func (c *Ctx) applyContract(st *State, fr *Frame, instr ssa.Instruction, ct *Con
 	}
 	env := c.contractEnv(ct, sig, fn, args, recv)
 	se := &SpecEnv{c: c, st: st, vars: env, pkg: ct.Pkg, old: nil, fr: nil}
+	if c.rejectClause != nil {
+		// rejects pass: the callee's preconditions may not hold here. If they do not, the callee
+		// must itself reject (one of its own "rejects" conditions holds); then this path ends.
+		var pres, rejs []string
+		for _, cl := range ct.Clauses {
+			if cl.Kind == "requires" {
+				pres = append(pres, se.evalBool(cl.E))
+			}
+			if cl.Kind == "rejects" {
+				rejs = append(rejs, se.evalBool(cl.E))
+			}
+		}
+		if len(pres) > 0 {
+			bad := st.clone()
+			bad.assume("(not " + and(pres...) + ")")
+			rc := c.rejectClause
+			c.obls = append(c.obls, &Obligation{Func: c.fnKey(), Kind: "rejects", Name: c.fnKey() + "#rejects#" + rc.Hash(), Desc: "callee " + name + " is called outside its precondition and does not reject: " + normSpace(rc.Text), Goal: orFalse(or(rejs...)), Lines: bad.lines.collect(), Clause: rc, Tags: rc.Tags, Path: strings.Join(st.pathDesc, ",")})
+		}
+	}
 	// preconditions
 	for _, cl := range ct.Clauses {
 		if cl.Kind != "requires" {
@@ -1130,6 +1149,13 @@ func (c *Ctx) loopClauses(fr *Frame, li *loopInfo, kind string) []*Clause {
 
 // loopHeader handles arrival at a loop header; returns true when the body should be executed.
 func (c *Ctx) loopHeader(fr *Frame, li *loopInfo, b, pred *ssa.BasicBlock, st *State) bool {
+	if c.rejectClause != nil {
+		// a misuse must be rejected before any loop is entered (loop invariants are stated for legal
+		// states and must not be assumed here)
+		cl := c.rejectClause
+		c.obls = append(c.obls, &Obligation{Func: c.fnKey(), Kind: "rejects", Name: c.fnKey() + "#rejects#" + cl.Hash(), Desc: "a loop is reached without rejecting: " + normSpace(cl.Text), Goal: "false", Lines: st.lines.collect(), Clause: cl, Tags: cl.Tags, Path: strings.Join(st.pathDesc, ",")})
+		return false
+	}
 	key := c.loopKey(fr, b)
 	ct := fr.contract
 	if ct == nil {
